@@ -154,6 +154,8 @@ def core_lines(tier):
     out.append(line("bufF", "buf0", iat=ND_IAT, pd=ND_PD, until=7.3))
     out.append(line("buf0", "buf0", iat=ND_IAT, pd=ND_PD, until=7.3, mb=False, sb=False))
     out.append(line("bufF", "buf0", until=0.7))
+    out.append(line("bufF", "buf0", until=0.7, setup=1.5))      # finalisation before the set-up period is over
+    out.append(line("bufF", "buf0", until=1.5, setup=1.5))      # ... and exactly at its end
     out.append(line("bufF", "buf0", iat=[0, 1], n=4))
     out.append(line("buf0", "bufF", iat=[0, 2], pd=[1, 2], n=3, cap1=2))
     return out
